@@ -71,14 +71,17 @@ type c06Model struct {
 	level  LoggingLevel
 }
 
-func c06Run(t *testing.T, msgs []c06Msg, hist []int) (out verifx.SearchResult) {
+func c06Run(t *testing.T, msgs []c06Msg, hist []int, legacyOnly bool) (out verifx.SearchResult) {
 	synctest.Test(t, func(t *testing.T) {
-		out = c06RunInBubble(msgs, hist)
+		out = c06RunInBubble(msgs, hist, legacyOnly)
 	})
 	return out
 }
 
-func c06RunInBubble(msgs []c06Msg, hist []int) verifx.SearchResult {
+// legacyOnly: the server's transport declares (ProtocolVersionSupporter) that it serves the legacy
+// versions only, as the SDK's HTTP+SSE and stateful streamable transports do: 2026-07-28 is then not
+// a supported version on this session, whatever a request's _meta says.
+func c06RunInBubble(msgs []c06Msg, hist []int, legacyOnly bool) verifx.SearchResult {
 	bad := func(sig, format string, a ...any) verifx.SearchResult {
 		return verifx.SearchResult{Bad: fmt.Sprintf(format, a...), Sig: "c06 " + sig}
 	}
@@ -105,7 +108,11 @@ func c06RunInBubble(msgs []c06Msg, hist []int) verifx.SearchResult {
 			return next(ctx, method, req)
 		}
 	})
-	ct, st := NewInMemoryTransports()
+	ct, st0 := NewInMemoryTransports()
+	var st Transport = st0
+	if legacyOnly {
+		st = &c07Advertise{Transport: st0, set: c07Legacy}
+	}
 	ss, err := s.Connect(ctx, st, nil)
 	if err != nil {
 		return bad("connect", "connect: %v", err)
@@ -279,7 +286,26 @@ func c06RunInBubble(msgs []c06Msg, hist []int) verifx.SearchResult {
 					r = &r2
 				}
 			}
-		case "modern-tool", "modern-discover":
+		case "modern-tool", "modern-discover", "modern-unknown-method", "modern-bad-params":
+			if legacyOnly {
+				// complete metadata naming a version this session's transport does not serve
+				if msg.kind == "modern-discover" && served {
+					r = stateUnchanged() // discovery may also answer with the (legacy) versions on offer
+				} else {
+					r = mustReject(-32022)
+				}
+				break
+			}
+			if msg.kind == "modern-unknown-method" {
+				// complete, supported metadata - but the request itself is refused: it must leave no trace
+				r = mustReject(-32601)
+				break
+			}
+			if msg.kind == "modern-bad-params" {
+				gateReject = false // refused while decoding the parameters, which may sit behind the middleware
+				r = mustReject(-32602)
+				break
+			}
 			if r = mustServe(); r == nil {
 				if msg.kind == "modern-tool" {
 					if delta("tool") != 1 {
@@ -293,12 +319,6 @@ func c06RunInBubble(msgs []c06Msg, hist []int) verifx.SearchResult {
 			}
 		case "modern-invalid":
 			r = mustReject(-32602)
-		case "modern-unknown-method":
-			// complete, supported metadata - but the request itself is refused: it must leave no trace
-			r = mustReject(-32601)
-		case "modern-bad-params":
-			gateReject = false // refused while decoding the parameters, which may sit behind the middleware
-			r = mustReject(-32602)
 		case "modern-unsupported":
 			if r = mustReject(-32022); r == nil {
 				var data struct {
@@ -310,7 +330,11 @@ func c06RunInBubble(msgs []c06Msg, hist []int) verifx.SearchResult {
 				}
 			}
 		case "removed":
-			r = mustReject(-32601)
+			if legacyOnly && strings.Contains(msg.params, "io.modelcontextprotocol/protocolVersion") {
+				r = mustReject(-32022) // the version is refused before the method is looked at
+			} else {
+				r = mustReject(-32601)
+			}
 		}
 		if r != nil {
 			return *r
@@ -335,7 +359,12 @@ func TestVerifC06(t *testing.T) {
 	env.RunSearch(res, &verifx.Search{
 		Name: "wire-history-search", NumOps: len(msgs), OpName: func(i int) string { return msgs[i].name },
 		MaxDepth: env.Pick(6, 7), ShallowDepth: env.Pick(2, 4),
-		Run: func(h []int) verifx.SearchResult { return c06Run(t, msgs, h) },
+		Run: func(h []int) verifx.SearchResult { return c06Run(t, msgs, h, false) },
+	})
+	env.RunSearch(res, &verifx.Search{
+		Name: "wire-history-search/legacy-only-transport", NumOps: len(msgs), OpName: func(i int) string { return msgs[i].name },
+		MaxDepth: env.Pick(5, 6), ShallowDepth: env.Pick(2, 3),
+		Run: func(h []int) verifx.SearchResult { return c06Run(t, msgs, h, true) },
 	})
 	env.Finish(res)
 }
